@@ -23,6 +23,7 @@ mod c06;
 mod c07;
 mod c08;
 mod c09;
+mod c10;
 mod c11;
 mod c12;
 mod c14;
@@ -113,6 +114,32 @@ fn main() {
             let mut g = sweep::all_on(harper_core::Dialect::American, cur.clone());
             for l in g.lint(&doc) {
                 println!("lint: {}", sweep::lint_json(&l));
+            }
+        }
+        "c10-lib-child" => {
+            install_panic_hook();
+            std::process::exit(c10::lib_child());
+        }
+        "c10-server-child" => {
+            install_panic_hook();
+            let d = args.get(2).and_then(|x| x.parse().ok()).unwrap_or(2);
+            std::process::exit(c10::server_child(d));
+        }
+        "c10-real" => {
+            let k = args.get(2).and_then(|x| x.parse().ok()).unwrap_or(0);
+            let tcp = args.get(3).map(|x| x == "tcp").unwrap_or(false);
+            c10::debug_real(k, tcp);
+        }
+        "c09-debug" => {
+            install_panic_hook();
+            e3::sandbox_env();
+            use c09::Op;
+            let prefix = vec![];
+            let batch = vec![Op::Open(0, 0), Op::CodeAction(0), Op::Shutdown];
+            let choices: Vec<usize> = args.iter().skip(2).filter_map(|x| x.parse().ok()).collect();
+            match c09::execute(&prefix, &batch, &choices) {
+                Ok((s, w, t, ok)) => println!("ok={ok} widths={w:?}\ntrace={t:?}\nproblems={:?}", s.check_spec()),
+                Err(e) => println!("ERR {e}"),
             }
         }
         "c05-menu" => {
